@@ -257,6 +257,13 @@ void gen_samples(const psig_t *ps, uint64_t vseed, int64_t sid, uint32_t n, uint
                 else v = bits == 32 ? finite_f32_bits(hv) : finite_f64_bits(hv);
             } else v = (hv >> 5) & mask;
         }
+        /* rails: now and then exactly the most negative / most positive value of an integer type (a clipping converter) */
+        if (t->kind != 2 && bits >= 8 && (pat == PAT_WALK || pat == PAT_RANDOM) && (hv % 89) == 7) {
+            uint64_t top = t->kind == 1 ? (1ULL << (bits - 1)) - 1 : mask;          /* max */
+            uint64_t bot = t->kind == 1 ? (1ULL << (bits - 1)) : 0;                 /* min (two's complement pattern) */
+            if (bits == 64) { top = t->kind == 1 ? 0x7fffffffffffffffULL : ~0ULL; bot = t->kind == 1 ? 0x8000000000000000ULL : 0; }
+            v = ((hv >> 9) & 1) ? top : bot;
+        }
         put_bits(out, (int64_t) i * bits, bits, v);
     }
 }
